@@ -301,13 +301,18 @@ def validate_trace(spec, cfg, trace, metadir, timeout=1800, heap="12g"):
     raise ToolError("trace validation of %s ended without a verdict (TLC error: %s)" % (trace, r["err"]))
 
 
-def segment_bounds(path, d):
-    """(start, end) lines of the Reset-delimited segment containing line d."""
+SEG_MARKER = {"Trace_Api.tla": '"ev":"Reset"', "Trace_Sink.tla": '"ev":"KNew"', "Trace_File.tla": '"ev":',
+              "Trace_Build.tla": '"ev":"TNew"', "Trace_Aut.tla": '"ev":', "Trace_Lev.tla": '"ev":', "Trace_Merge.tla": '"ev":"Run"',
+              "Trace_Mem.tla": '"ev":'}
+
+
+def segment_bounds(path, d, marker='"ev":"Reset"'):
+    """(start, end) lines of the marker-delimited segment containing line d."""
     start, end, n = 1, None, 0
     with open(path) as f:
         for i, line in enumerate(f, 1):
             n = i
-            if line.startswith('{"ev":"Reset"'):
+            if marker in line[:120] or marker in line:
                 if i <= d:
                     start = i
                 elif end is None:
@@ -343,7 +348,7 @@ def check_trace(ctx, name, spec, cfg, trace, describe=None, max_findings=25, tim
             break
         d = offset + n                       # absolute line of the first unmatched event
         matched_total += n - 1
-        start, end, _ = segment_bounds(trace, d)
+        start, end, _ = segment_bounds(trace, d, SEG_MARKER.get(spec, '"ev":"Reset"'))
         ev = read_events(trace, d, d)[0]
         seg = os.path.join(ctx.work, "%s_rejected_%d.ndjson" % (name, findings + 1))
         write_slice(trace, seg, start, d)
@@ -395,7 +400,7 @@ def negative_control(ctx, name, spec, cfg, trace, mutate, pick):
                     break
     if target is None:
         raise ToolError("negative control for %s: no event to corrupt" % name)
-    start, end, _ = segment_bounds(trace, target)
+    start, end, _ = segment_bounds(trace, target, SEG_MARKER.get(spec, '"ev":"Reset"'))
     seg = os.path.join(ctx.work, "%s_negctl.ndjson" % name)
     with open(trace) as f, open(seg, "w") as g:
         for i, line in enumerate(f, 1):
